@@ -31,6 +31,16 @@ ASSUMPTIONS = [
 CASES = {"quick": 320, "thorough": 10000}
 
 
+results.WS_ROOT = "/tmp/vf-c12-ws"
+
+
+def extra(ctx):
+    """scratch workspaces of this run are removed at the end"""
+    import shutil
+
+    shutil.rmtree("/tmp/vf-c12-ws", ignore_errors=True)
+
+
 def job_items(small_only=False):
     prog = st.one_of(gen_prog.programs(max_stmts=12, with_control=True), gen_macro.macro_programs(single_file=True, max_stmts=15, with_control=True))
     p_item = prog.map(lambda p: {"kind": "program", "prog": p})
@@ -40,10 +50,13 @@ def job_items(small_only=False):
     from vf.checks import c11
 
     memo = c11.memo_table_inputs().flatmap(lambda items: st.sampled_from(items)) if True else None
+    # workspaces: main files that import macro files (chains, diamonds, lookup paths) from disk - two threads that
+    # compile the same project share every imported file
+    ws_item = gen_macro.macro_programs(single_file=False, max_stmts=12).filter(lambda c: c.get("files")).map(lambda c: {"kind": "ws", "case": c})
     empty_if_switch = st.tuples(st.integers(0, 3), st.integers(1, 3), st.sampled_from(["hold", "end", "return"]), st.integers(0, 2), st.booleans()).map(_empty_if_then_switch)
     if small_only:
-        return weighted((1, p_item), (3, s_item), (1, memo), (1, empty_if_switch))
-    return weighted((4, p_item), (8, s_item), (2, deep_item()), (2, failing_item()), (2, memo), (2, empty_if_switch), (1, wide_item()))
+        return weighted((1, p_item), (3, s_item), (1, memo), (1, empty_if_switch), (1, ws_item))
+    return weighted((4, p_item), (8, s_item), (2, deep_item()), (2, failing_item()), (2, memo), (2, empty_if_switch), (1, wide_item()), (3, ws_item))
 
 
 def _empty_if_then_switch(t):
@@ -137,10 +150,47 @@ def strategy(tier):
     inside_case = st.tuples(job_items(small_only=True), st.one_of(wide_item(), job_items(small_only=True)), st.integers(1, 80), st.booleans()).map(
         lambda t: {"mode": "sched", "jobs": [t[0], t[1]] if t[3] else [t[1], t[0]], "dup": False, "inside": True,
                    "schedule": [[0 if t[3] else 1, t[2], 2], [1 if t[3] else 0, 10**7, 0]], "max_switches": 4000})
-    return weighted((6, sched_case), (2, free_case), (2, cold_case), (3, lock_case), (2, inside_case))
+    # shared libraries: two threads compile two main files of ONE project on disk; both import the same chain of 2-4
+    # library files. One thread is stopped after 1-30 000 yield points for the whole run of the other (or both run under
+    # a drawn schedule / freely).
+    chain = st.tuples(st.integers(2, 4), st.integers(0, 7), st.integers(1, 30000), st.sampled_from(["pause", "pause", "sched", "free"]), st.booleans(),
+                      st.lists(st.tuples(st.integers(0, 1), st.integers(1, 3000), st.just(0)).map(list), min_size=5, max_size=40)).map(
+        lambda t: {"mode": "free" if t[3] == "free" else "sched", "dup": False, "shared_libs": True,
+                   "jobs": [{"kind": "chain_ws", "depth": t[0], "variant": t[1], "which": w} for w in ((0, 1) if t[4] else (1, 0))],
+                   "schedule": [] if t[3] == "free" else ([[0, t[2], 0], [1, 10**7, 0]] if t[3] == "pause" else t[5]), "max_switches": 4000})
+    return weighted((6, sched_case), (2, free_case), (2, cold_case), (3, lock_case), (2, inside_case), (2, chain))
+
+
+def chain_project(item):
+    """A project on disk: main0.exps and main1.exps both import lib0.exps, which imports lib1.exps ... (a chain of
+    `depth` libraries, each with a macro that calls the next one's). Returns the path of the main file of this item."""
+    import os
+
+    d, v = item["depth"], item["variant"]
+    base = os.path.join(results.WS_ROOT, f"chain-{d}-{v}")
+    os.makedirs(base, exist_ok=True)
+    for k in range(d):
+        nxt = f'import "./lib{k + 1}.exps";\n' if k + 1 < d else ""
+        call = f"~m{k + 1}($a);" if k + 1 < d else "Leaf($a);"
+        text = nxt + f"macro m{k}($a) {{ Lib{k}_{v}($a); if ($a == {k}) {{ In{k}(); }} {call} }}\n" + "".join(f"macro pad{k}_{j}() {{ Pad({j}); }}\n" for j in range(v % 4))
+        with open(os.path.join(base, f"lib{k}.exps"), "w") as fh:
+            fh.write(text)
+    for w in (0, 1):
+        with open(os.path.join(base, f"main{w}.exps"), "w") as fh:
+            fh.write('import "./lib0.exps";\n' + f"def 0 {{ Main{w}(); ~m0({w + v}); end; }}\n" + (f"def 1 for actor 2 {{ ~m0(7); hold; }}\n" if w else ""))
+    return os.path.join(base, f"main{item['which']}.exps")
 
 
 def make_job(item):
+    if item["kind"] == "chain_ws":
+        path = chain_project(item)
+        with open(path) as fh:
+            text = fh.read()
+        return lambda: results.compile_result_nobudget_file(text, path)
+    if item["kind"] == "ws":
+        # files on disk, written once; every thread compiles the main file with a compiler object of its own
+        ws = results.open_ws(item)
+        return lambda: results.ws_compile(item, "main", ws=ws, budget=False)
     if item["kind"] == "program":
         text = results.input_text(item)
         return lambda: results.compile_result_nobudget(text)
@@ -249,10 +299,16 @@ def evaluate(case, stt):
         items.append(items[0])  # the same input in two threads
     jobs, refs, kinds = [], [], []
     for it in items:
+        if it["kind"] == "chain_ws":
+            j = make_job(it)
+            jobs.append(j)
+            refs.append(j())  # (sequential result, computed before any thread starts)
+            kinds.append(it["kind"])
+            continue
         ref = results.reference(it)
         if ref.get("skip"):
             continue
-        r = ref.get("compile") or ref.get("decompile")
+        r = ref.get("compile") or ref.get("decompile") or ref.get("main")
         if r.get("raised") == "BUDGET":
             stt.skipped_budget += 1
             continue
